@@ -226,6 +226,8 @@ def gen_spec(k, cfg):
         elif cls == "WebApplicationJob":
             a["service"] = ["ref", r.choice(services["WebApplication"])]
             a["implementation_details"] = ["s", r.choice(IMPL_DETAILS)]
+            if objs[a["service"][1]]["attrs"]["technology"][1] == "rust-actix-sqlx" and a["implementation_details"][1] == "mysql":
+                a["implementation_details"] = ["s", "default"]   # no benchmark row for that pair
         elif cls == "GenAIJob":
             a["service"] = ["ref", r.choice(services["GenAIModel"])]
         jobs.append(add(f"j{i}", cls, a))
